@@ -54,6 +54,9 @@ def model(native_argv, root, host_inputs, native_cr, cont_cr):
             full, mode = q, "rw"
         else:
             for ps, h in pieces:
+                if norm(h) == norm(p):        # the path arrives intact (also when it contains blanks)
+                    q, full, mode = p, h, "ro"
+                    break
                 if ps[0] == p and native_argv[i + 1:i + len(ps)] == ps[1:]:
                     q, full, mode = p, h, "ro"
                     break
